@@ -5,6 +5,8 @@
 (* the contract through both wasm messages with and without payload, a transaction signed by        *)
 (* somebody else than its creator, a wasm message naming somebody else as sender), by a duplicate   *)
 (* creation of the same id by the owner and by a stranger, and by the creation of a second job.     *)
+(* The spelling of the hex payload (bare, 0x, 0X, odd length, upper case, empty) is varied for the  *)
+(* stored payload of jobs on the two relaying chains and for the caller's payload of transactions.  *)
 (* Simulate mode: random walks over creations (three ids) and executions, one creation every third  *)
 (* step.                                                                                            *)
 EXTENDS Scheduler, Json
@@ -16,24 +18,30 @@ AnAccount == CHOOSE a \in Accounts : \A b \in Accounts : a <= b
 ViaC(who) == IF who \in Accounts THEN "tx" ELSE "wasm"
 TP(id) == IF id = 1 THEN 1 ELSE CHOOSE t \in Targets : \A u \in Targets : u <= t
 
-GExec == \E who \in Callers, id \in JobIds \cup {BadId}, pg \in 0..2 : \E via \in Vias(who) :
-   /\ (via # "tx" => pg # 2)
-   /\ \/ Execute(who, who, via, id, pg)
-      \/ via # "legacy" /\ pg = 0 /\ id \in DOMAIN jobs /\ Execute(who, Other(who), via, id, IF via = "tx" THEN 0 ELSE 1)
+GExec == \/ \E who \in Callers, id \in JobIds \cup {BadId}, pg \in 0..2 : \E via \in Vias(who) :
+              /\ (via # "tx" => pg # 2)
+              /\ \/ Execute(who, who, via, id, pg, "bare")
+                 \/ via # "legacy" /\ pg = 0 /\ id \in DOMAIN jobs /\ Execute(who, Other(who), via, id, IF via = "tx" THEN 0 ELSE 1, "bare")
+         \* a caller payload in every other spelling (transactions only: the wasm bindings hex-encode themselves)
+         \/ \E id \in DOMAIN jobs, sp \in Spellings \ {"bare"} : Execute(AnAccount, AnAccount, "tx", id, 1, sp)
 
 \* cover: first step
-GCreate1 == \E who \in {AnAccount} \cup Contracts, c \in Chains, m \in BOOLEAN, v \in BOOLEAN :
-   \/ Create(who, who, ViaC(who), 1, c, TP(1), TP(1), m, v)
-   \/ c = 1 /\ ~m /\ ~v /\ Create(who, who, ViaC(who), BadId, c, TP(1), TP(1), m, v)
+GCreate1 == \/ \E who \in {AnAccount} \cup Contracts, c \in Chains, m \in BOOLEAN, v \in BOOLEAN :
+                 \/ Create(who, who, ViaC(who), 1, c, TP(1), TP(1), "bare", m, v)
+                 \/ c = 1 /\ ~m /\ ~v /\ Create(who, who, ViaC(who), BadId, c, TP(1), TP(1), "bare", m, v)
+            \* every other spelling of the stored payload, on the chains that relay (1: with the valset update, 2: plain)
+            \/ \E c \in {1, 2} \cap Chains, m \in BOOLEAN, sp \in Spellings \ {"bare"} :
+                 \/ Create(AnAccount, AnAccount, "tx", 1, c, TP(1), TP(1), sp, m, FALSE)
+                 \/ c = 2 /\ m /\ \E k \in Contracts : Create(k, k, "wasm", 1, c, TP(1), TP(1), sp, m, FALSE)
 \* cover: second step
 GCreate2 == \E who \in Callers :
-   \/ \E id \in DOMAIN jobs : Create(who, who, ViaC(who), id, jobs[id].chain, TP(2), TP(2), ~jobs[id].mod, FALSE)
-   \/ \E id \in DOMAIN jobs : who \in Contracts /\ Create(who, who, "wasm", id, 4, TP(2), TP(2), FALSE, TRUE)
-   \/ who \in Accounts /\ Create(who, Other(who), "tx", 2, 2, TP(2), TP(2), FALSE, FALSE)
-   \/ who = AnAccount /\ Create(who, who, "tx", 2, 2, TP(2), TP(2), TRUE, FALSE)
+   \/ \E id \in DOMAIN jobs : Create(who, who, ViaC(who), id, jobs[id].chain, TP(2), TP(2), IF jobs[id].sp = "bare" THEN "0x" ELSE "bare", ~jobs[id].mod, FALSE)
+   \/ \E id \in DOMAIN jobs : who \in Contracts /\ Create(who, who, "wasm", id, 4, TP(2), TP(2), "bare", FALSE, TRUE)
+   \/ who \in Accounts /\ Create(who, Other(who), "tx", 2, 2, TP(2), TP(2), "bare", FALSE, FALSE)
+   \/ who = AnAccount /\ Create(who, who, "tx", 2, 2, TP(2), TP(2), "odd", TRUE, FALSE)
 
 Step(r) == [act |-> r.act, args |-> [who |-> r.who, as |-> r.as, via |-> r.via, id |-> r.id, chain |-> r.chain, target |-> r.target,
-                                     payload |-> r.payload, mod |-> r.mod, mev |-> r.mev, pg |-> r.pg]]
+                                     payload |-> r.payload, sp |-> r.sp, mod |-> r.mod, mev |-> r.mev, pg |-> r.pg]]
 GInit == Init /\ hist = <<>>
 GView == <<last, res, svars>>
 GConstr == nops <= MaxOps
@@ -43,9 +51,13 @@ GNextC == (IF EmitCond THEN PrintT(<<"HIST", ToJson(hist)>>) ELSE TRUE)
           /\ GActC /\ hist' = Append(hist, Step(last'))
 
 \* simulate mode
-GCreateS == \E who \in Callers, id \in JobIds, c \in Chains, t \in Targets, p \in Payloads, m \in BOOLEAN, v \in BOOLEAN :
-   Create(who, who, ViaC(who), id, c, t, p, m, v)
-GActS == IF nops % 3 = 0 THEN GCreateS ELSE GExec
+\* (target and payload vary together: every successor is enumerated at every step of a walk)
+GCreateS == \E who \in Callers, id \in JobIds, c \in Chains, p \in Payloads, sp \in Spellings, m \in BOOLEAN, v \in BOOLEAN :
+   Create(who, who, ViaC(who), id, c, IF p \in Targets THEN p ELSE TP(1), p, sp, m, v)
+GExecS == \E who \in Callers, id \in JobIds \cup {BadId}, pg \in 0..2 : \E via \in Vias(who) : \E sp \in ExecSp(via, pg) :
+   /\ (via # "tx" => pg # 2)
+   /\ Execute(who, who, via, id, pg, sp)
+GActS == IF nops % 3 = 0 THEN GCreateS ELSE GExecS
 GNextS == (IF nops = EmitAt THEN PrintT(<<"HIST", ToJson(hist)>>) ELSE TRUE)
           /\ GActS /\ hist' = Append(hist, Step(last'))
 =============================================================================
